@@ -988,7 +988,7 @@ def build_cases(ctx):
         descs += [("api_assert", toks, k) for k in (0, 1, 2, 3, 4)]
     # 11. random: every constructor form, valid and damaged, to 6 qubits (graphs, composite gates to nmax)
     nmax = ctx.scale(8, 10)
-    for _ in range(ctx.scale(3000, 60000)):
+    for _ in range(ctx.scale(2000, 60000)):
         descs.append(("api_rand", rng.getrandbits(48), nmax))
     return descs
 
